@@ -6,11 +6,11 @@ WV(x) == x % W
 
 TraceInit == Init /\ TBInit
 
-OpName(x) == IF x = "alloc" THEN "deq" ELSE IF x \in {"dealloc_id", "dealloc_ref", "dealloc_last"} THEN "enq" ELSE x
+OpName(x) == IF x \in {"alloc", "alloc_with"} THEN "deq" ELSE IF x \in {"dealloc_id", "dealloc_ref", "dealloc_last"} THEN "enq" ELSE x
 
 TReset == Ev.k = "reset" /\ ResetTo(WV(Ev.x.origin))
-TCall  == Ev.k = "call" /\ Call(P, [op |-> OpName(Ev.x.op), v |-> Ev.x.v, i |-> Ev.x.i + 1])
-TRet   == /\ Ev.k = "ret"
+TCall  == Ev.k = "call" /\ ~IsNopCall /\ Call(P, [op |-> OpName(Ev.x.op), v |-> Ev.x.v, i |-> Ev.x.i + 1])
+TRet   == /\ Ev.k = "ret" /\ ~IsNopRet
           /\ pc[P] = "ret"
           /\ reg[P].res.ok = Ev.x.ok
           /\ (Ev.x.ok /\ OpName(Ev.fn) \in {"deq", "len", "enq"} /\ Ev.fn # "dealloc_id" /\ Ev.fn # "dealloc_ref" /\ Ev.fn # "dealloc_last") => (reg[P].res.v = WV(Ev.x.v))
@@ -47,8 +47,8 @@ TraceNext == /\ l <= Len(Rec)
              /\ l' = l + 1
              /\ IF Skipping
                 THEN UNCHANGED <<vars, bad>>
-                ELSE /\ (TReset \/ TCall \/ TRet \/ TOp \/ TFinal)
-                     /\ bad' = BadOf'
+                ELSE /\ (((IsNopCall \/ IsNopRet) /\ Stutter) \/ TReset \/ TCall \/ TRet \/ TOp \/ TFinal)
+                     /\ bad' = Worst(EvBad, BadOf')
                      /\ NoteBad(bad')
 
 TraceSpec == TraceInit /\ [][TraceNext]_tvars
